@@ -152,6 +152,42 @@ def main(tier, replay, t0):
                                       "with representation %s, derive switches change more than "
                                       "derive lists and assertions: %s vs %s" % (
                                           mv, groups[0][:3], groups[-1][:3]), {"case_id": c.id, "wgsl": c.wgsl}))
+    # the options are the only switches: the environment of a build script (target
+    # architecture, profile ...) must not turn derives or assertions on or off
+    binp = core.build_drive()
+    envs = [{"CARGO_CFG_TARGET_ARCH": "wasm32", "CARGO_CFG_TARGET_OS": "unknown",
+             "CARGO_CFG_TARGET_FAMILY": "wasm", "TARGET": "wasm32-unknown-unknown",
+             "HOST": "x86_64-unknown-linux-gnu", "PROFILE": "release", "OPT_LEVEL": "3",
+             "DEBUG": "false", "CARGO_FEATURE_SERDE": "1", "CARGO_FEATURE_BYTEMUCK": "1"},
+            {"CARGO_CFG_TARGET_ARCH": "aarch64", "CARGO_CFG_TARGET_OS": "android",
+             "TARGET": "aarch64-linux-android", "PROFILE": "debug", "OPT_LEVEL": "0",
+             "DEBUG": "true", "CARGO_CFG_TARGET_POINTER_WIDTH": "32",
+             "CARGO_CFG_TARGET_ENDIAN": "big", "RUSTFLAGS": "-C target-feature=+simd128"}]
+    ejobs = []
+    emeta = {}
+    for c in camp.cases.values():
+        if c.frontend_rejected:
+            continue
+        for x in c.cfgs:
+            if not x.get("matrix") or c.gen[x["id"]].get("result") != "ok":
+                continue
+            jid = "%s|%s" % (c.id, x["id"])
+            ejobs.append({"id": jid, "source": c.wgsl, "opt": x["opt"]})
+            emeta[jid] = (c, x)
+    env_compared = 0
+    for k, e in enumerate(envs):
+        res, crashed = core.run_drive_sharded(binp, ejobs, "c09/env%d" % k, extra_env=e)
+        if crashed:
+            raise core.Inconclusive("drive crashed under environment %d: %r" % (k, crashed[:1]))
+        for jid, r in res.items():
+            c, x = emeta[jid]
+            env_compared += 1
+            if r.get("result") != "ok" or r.get("text_sha") != c.gen[x["id"]].get("text_sha"):
+                viol.append(Violation("environment-changes-output", e["CARGO_CFG_TARGET_ARCH"],
+                                      "with the build-script environment %r the text returned "
+                                      "for the same shader and option set differs" % e,
+                                      {"case_id": c.id, "wgsl": c.wgsl, "options": x["opt"],
+                                       "env": e}))
     inconclusive = []
     if probes_n == 0:
         inconclusive.append("no trait probe ran")
